@@ -219,3 +219,8 @@ mod tests {
         validate_caps_text("all=e").unwrap();
     }
 }
+
+// Verification harnesses (Kani); compiled only by the Kani compiler, which sets cfg(kani).
+#[cfg(kani)]
+#[path = "/verif/harness/filecaps.rs"]
+mod verif_kani;
